@@ -1,5 +1,6 @@
 \* intended switches, programs from PROG_FILE (harness-drawn deep trees): TLC must pass; PROG lines feed the replay
 CONSTANTS SympyParenthesises = TRUE SafeNames = TRUE ClassifiesDiscrete = TRUE PrintsValueExpressions = TRUE
+          OneListPerVariable = TRUE
           Family = "file"
 INIT Init
 NEXT Next
